@@ -394,6 +394,19 @@ Qed.
 
 End Stream.
 
+(* the NCName property is stated under the validity of the text, so that the token invariant
+   itself needs no hypothesis *)
+Definition ncname_if_valid (text l : bytes) : Prop := valid_utf8_b text = true -> is_ncname l.
+
+Lemma consume_qname_wf' text s : RestOk text s ->
+  okP (consume_qname text s)
+      (fun p => ncname_if_valid text (slice_bytes text (snd (fst p))) /\ RestOk text (snd p)).
+Proof.
+  intros Hr p H. split.
+  - intros Hv. exact (proj1 (consume_qname_wf text Hv s Hr p H)).
+  - destruct p as [[p0 l0] s']. eapply consume_qname_rest; eauto.
+Qed.
+
 (* ------------------------------------------------------------------------------------------ *)
 (* is_xml_str                                                                                   *)
 
@@ -449,8 +462,8 @@ Definition token_wf (text : bytes) (tok : token) : Prop :=
   | TComment t _ =>
     all_chars (sb t) /\ contains_b (b "--") (sb t) = false /\ ends_with_byte 45 (sb t) = false
   | TEntityDecl _ value => all_chars (sb value)
-  | TElementStart _ local _ => is_ncname (sb local)
-  | TAttribute _ _ _ _ local value => is_ncname (sb local) /\ all_chars (sb value)
+  | TElementStart _ local _ => ncname_if_valid text (sb local)
+  | TAttribute _ _ _ _ local value => ncname_if_valid text (sb local) /\ all_chars (sb value)
   | TElementEnd _ _ => True
   | TText t r => all_chars (sb t) /\ r = (sl_start t, sl_end t)
   | TCdata t _ => all_chars (sb t)
@@ -458,7 +471,6 @@ Definition token_wf (text : bytes) (tok : token) : Prop :=
 
 Section Tok.
 Variable text : bytes.
-Hypothesis Hvalid : valid_utf8_b text = true.
 Variable C : Type.
 Variable ev : token -> C -> res C.
 Variable P : C -> Prop.
@@ -494,7 +506,7 @@ Ltac sspec :=
         | apply consume_chars_wf; solve [fin]
         | apply skip_name_okP; solve [fin]
         | apply consume_name_wf; solve [fin]
-        | apply (consume_qname_wf text Hvalid); solve [fin]
+        | apply consume_qname_wf'; solve [fin]
         | apply slice_back_eqP
         | apply mk_slice_eqP
         | apply is_xml_str_wf
@@ -625,22 +637,20 @@ End Tok.
 
 (* the tokenizer delivers only well-formed tokens, whatever the callback *)
 Theorem tokenizer_tokens_wf : forall text (C : Type) (ev : token -> C -> res C) (P : C -> Prop) dtd c c',
-  valid_utf8_b text = true ->
   (forall tok c0 c1, token_wf text tok -> P c0 -> ev tok c0 = Ok c1 -> P c1) ->
   P c -> parse_document text C ev dtd c = Ok c' -> P c'.
 Proof.
-  intros text C ev P dtd c c' Hv Hev Hc H.
-  exact (parse_document_wf text Hv C ev P Hev dtd c Hc c' H).
+  intros text C ev P dtd c c' Hev Hc H.
+  exact (parse_document_wf text C ev P Hev dtd c Hc c' H).
 Qed.
 Print Assumptions tokenizer_tokens_wf.
 
 (* the same for the entry point the builder uses on the value of an entity *)
 Theorem tokenizer_content_tokens_wf : forall text (C : Type) (ev : token -> C -> res C) (P : C -> Prop) s c s' c',
-  valid_utf8_b text = true ->
   (forall tok c0 c1, token_wf text tok -> P c0 -> ev tok c0 = Ok c1 -> P c1) ->
   RestOk text s -> P c -> parse_content text C ev s c = Ok (s', c') -> P c'.
 Proof.
-  intros text C ev P s c s' c' Hv Hev Hr Hc H.
-  exact (proj2 (parse_content_wf text Hv C ev P Hev s c Hr Hc (s', c') H)).
+  intros text C ev P s c s' c' Hev Hr Hc H.
+  exact (proj2 (parse_content_wf text C ev P Hev s c Hr Hc (s', c') H)).
 Qed.
 Print Assumptions tokenizer_content_tokens_wf.
